@@ -1,3 +1,4 @@
+#[cfg(not(mrecordlog_verif))]
 use std::fs::{File, OpenOptions};
 use std::io::{self, BufWriter, Read, Seek, SeekFrom, Write};
 use std::path::{Path, PathBuf};
@@ -5,6 +6,8 @@ use std::path::{Path, PathBuf};
 use tracing::info;
 
 use super::{FileNumber, FileTracker};
+#[cfg(mrecordlog_verif)]
+use crate::verif_hooks::{File, OpenOptions};
 use crate::rolling::{FILE_NUM_BYTES, FRAME_NUM_BYTES};
 use crate::{BlockRead, BlockWrite, PersistAction, BLOCK_NUM_BYTES};
 
@@ -46,6 +49,8 @@ impl Directory {
     /// Open a `Directory`, or create a new, empty, one. `dir_path` must exist and be a directory.
     pub fn open(dir_path: &Path) -> io::Result<Directory> {
         let mut file_numbers: Vec<u64> = Default::default();
+        #[cfg(mrecordlog_verif)]
+        crate::verif_hooks::on_read_dir()?;
         for dir_entry_res in std::fs::read_dir(dir_path)? {
             let dir_entry = dir_entry_res?;
             if !dir_entry.file_type()?.is_file() {
@@ -92,6 +97,8 @@ impl Directory {
             let filepath = filepath(&self.dir, &file);
             info!(file=%filepath.display(), "gc remove file");
             std::fs::remove_file(&filepath)?;
+            #[cfg(mrecordlog_verif)]
+            crate::verif_hooks::on_unlink(&filepath);
         }
         Ok(())
     }
